@@ -65,10 +65,17 @@ typedef struct {
   if (!((val)->type & (t))) bad_argument(val, t, arg, inst);
 
 /* Beek - add some sanity to joining strings */
+/* the result of a join is an LPC value: it must respect the configured maximum string length */
+#define CHECK_JOINED_STRLEN(len) do {\
+        if ((len) > (size_t)CONFIG_INT (__MAX_STRING_LENGTH__)) \
+          error ("*Maximum string length exceeded in concatenation."); \
+        } while(0)
+
 /* add to an svalue */
 #define EXTEND_SVALUE_STRING(x, y, z) do {\
         char *ess_res; size_t ess_len; size_t ess_r; \
         ess_len = (ess_r = SVALUE_STRLEN(x)) + strlen(y); \
+        CHECK_JOINED_STRLEN(ess_len); \
         if ((x)->subtype == STRING_MALLOC && MSTR_REF((x)->u.string) == 1) { \
           ess_res = (char *) extend_string((x)->u.string, ess_len); \
           if (!ess_res) fatal("Out of memory!\n"); \
@@ -87,6 +94,7 @@ typedef struct {
 #define SVALUE_STRING_ADD_LEFT(y, z) do {\
         char *pss_res; size_t pss_r; size_t pss_len; \
         pss_len = SVALUE_STRLEN(sp) + (pss_r = strlen(y)); \
+        CHECK_JOINED_STRLEN(pss_len); \
         pss_res = new_string(pss_len, z); \
         strcpy(pss_res, y); \
         strcpy(pss_res + pss_r, sp->u.string); \
@@ -101,6 +109,7 @@ typedef struct {
         char *ssj_res; size_t ssj_r; size_t ssj_len; \
         ssj_r = SVALUE_STRLEN(x); \
         ssj_len = ssj_r + SVALUE_STRLEN(y); \
+        CHECK_JOINED_STRLEN(ssj_len); \
         if ((x)->subtype == STRING_MALLOC && MSTR_REF((x)->u.string) == 1) { \
             ssj_res = (char *) extend_string((x)->u.string, ssj_len); \
             if (!ssj_res) fatal("Out of memory!\n"); \
